@@ -569,6 +569,10 @@ func c15SkipDelta(c *Ctx, fn *ssa.Function) (delta int64, ok bool, why string) {
 		if rn := RecvNamed(r); rn != nil && (rn.Obj() == lg.Obj() || rn.Obj() == sg.Obj()) {
 			return true
 		}
+		// an unexported helper of the package (one that applies a list of options, say)
+		if !token.IsExported(r.Name()) {
+			return true
+		}
 		// an option constructor (AddCallerSkip(2)): what it returns is applied right here
 		if r.Signature.Recv() == nil && r.Signature.Results().Len() == 1 && strings.HasSuffix(r.Signature.Results().At(0).Type().String(), "zap.Option") {
 			return true
